@@ -136,3 +136,155 @@ def kernel_differential(n_histories, seed, max_len=4):
             except Exception:
                 pass
     return stats
+
+
+# ---- queries: the VALUE the executor computes on a concrete state against the value CPython returns ----------------------------------
+
+QUERIES = {   # method -> (argument kinds, result kind)
+    'has_interaction': (('node', 'node', 'int?'), 'bool'),          # (has_node / degree: values of uninterpreted cardinalities, not comparable)
+    'neighbors': (('node', 'int?'), 'nodes'), 'neighbors_iter': (('node', 'int?'), 'nodes'),
+    'successors': (('node', 'int?'), 'nodes'), 'predecessors': (('node', 'int?'), 'nodes'),
+    'successors_iter': (('node', 'int?'), 'nodes'), 'predecessors_iter': (('node', 'int?'), 'nodes'),
+    'nodes': (('int?',), 'nodes'), 'interactions_per_snapshots': (('int',), 'int'), 'number_of_interactions': (('node', 'node', 'int?'), 'int'),
+}
+
+
+def run_concrete_query(engine, G, cls, name, args):
+    """-> (mismatch descriptions, outcome).  Callee contracts are NOT used: every call is inlined, so this exercises the executor's
+    treatment of comprehensions, rows, generic-element evaluation, loops over small concrete collections"""
+    kinds, rkind = QUERIES[name]
+    nm = NodeMap()
+    empty = engine.empty_attr()
+    pre = abstract_graph(G, nm, 'self', {}, empty)
+    if pre.problems:
+        return ['pre-state outside the model: %s' % pre.problems[:2]], 'skipped'
+    try:
+        real = getattr(G, name)(*args)
+        if rkind in ('nodes', 'ints'):
+            real = list(real)
+        routcome = 'return'
+    except Exception as ex:
+        real, routcome = None, 'raise ' + ex.__class__.__name__
+    argv = [VGraph(pre)]
+    for a, k in zip(args, kinds):
+        argv.append(VNone if a is None else (VNode(nm.node(a)) if k == 'node' else VInt(a)))
+    mod = 'dyndigraph' if cls == 'DynDiGraph' else 'dyngraph'
+    fkey = '%s::%s.%s' % (mod, cls, name)
+    if fkey not in engine.funcs:
+        return [], 'undecided: no source'
+    # the executor may keep paths it cannot prove infeasible (trusted contracts such as sorted() leave lengths symbolic): CPython's
+    # behaviour must be AMONG the executor's paths (the executor over-approximates); a mismatch is reported when no path agrees
+    from .interp import next_decisions
+    decisions = []
+    problems = []
+    n_paths = 0
+    while decisions is not None and n_paths < 24:
+        n_paths += 1
+        pre = abstract_graph(G, nm, 'self', {}, empty)
+        argv[0] = VGraph(pre)
+        p = _one_query_path(engine, pre, nm, empty, fkey, argv, decisions, name, args, rkind, real, routcome)
+        if p is None:
+            return [], 'undecided'
+        if not p:
+            return [], routcome
+        problems = p
+        decisions = next_decisions(decisions)
+    return problems, routcome
+
+
+def _one_query_path(engine, pre, nm, empty, fkey, argv, decisions, name, args, rkind, real, routcome):
+    """one path of the executor: [] if it agrees with CPython, a list of differences if not, None if outside the subset"""
+    ctx = Ctx(engine, decisions, 2000)
+    ctx.graphs['self'] = pre
+    ctx.assume(nm.distinct([], empty))
+    interp = Interp(ctx, engine)
+    engine.cur_key = fkey
+    saved = dict(engine.contracts)
+    engine.contracts.clear()
+    try:
+        res = engine.inline(interp, engine.fn(fkey), argv, {})
+        sym = 'return'
+    except PyRaise as ex:
+        res, sym = None, 'raise ' + ex.cls
+    except PathEnd:
+        return ['(infeasible path)']
+    except Undecided as u:
+        return None
+    finally:
+        engine.contracts.update(saved)
+    out = []
+    if sym != routcome:
+        return ['outcome: executor %s, CPython %s' % (sym, routcome)]
+    if sym != 'return':
+        return out
+    s = z3.Solver()
+    s.set('timeout', 5000)
+    for h in ctx.hyps + ctx.pc:
+        s.add(h)
+
+    def implied(f):
+        s.push()
+        s.add(z3.Not(f))
+        r = s.check()
+        s.pop()
+        return r == z3.unsat
+    if rkind == 'bool':
+        if res.kind != 'bool' or not implied(res.z == z3.BoolVal(bool(real))):
+            out.append('%s%r: executor %s, CPython %r' % (name, args, getattr(res, 'z', res.kind), real))
+    elif rkind == 'int':
+        if res.kind != 'int' or not implied(res.z == IntV(int(real))):
+            out.append('%s%r: executor %s, CPython %r' % (name, args, getattr(res, 'z', res.kind), real))
+    elif rkind == 'nodes':
+        if res.kind == 'list' and not res.esc:
+            got = [x for x in res.items]
+            member = lambda b: z3.Or(*[x.z == b for x in got]) if got else z3.BoolVal(False)
+        elif res.kind == 'bag':
+            member = res.member
+        elif res.kind == 'nodedict':
+            member = lambda b: pre['NodeIn'][b]
+        else:
+            return None
+        for n_, z_ in list(nm.n2z.items()):
+            if not implied(member(z_) == z3.BoolVal(n_ in real)):
+                out.append('%s%r: membership of %r: CPython %r' % (name, args, n_, n_ in real))
+    elif rkind == 'ints':
+        if res.kind != 'seq':
+            return None
+        if not implied(res.n == len(real)) or not all(implied(res.elem(IntV(i)).z == v) for i, v in enumerate(real)):
+            out.append('%s%r: CPython %r' % (name, args, real))
+    return out
+
+
+def query_differential(n_histories, seed, max_len=4):
+    import dynetx as dn
+    rng = random.Random(seed)
+    eng = Engine()
+    stats = {'calls': 0, 'mismatches': [], 'undecided': 0, 'raise': 0}
+    for h in range(n_histories):
+        cls = rng.choice(('DynGraph', 'DynDiGraph'))
+        removal = rng.random() < 0.75
+        G = getattr(dn, cls)(edge_removal=removal)
+        hist = []
+        for _ in range(rng.randint(1, max_len)):
+            u, v = rng.choice((1, 2, 3)), rng.choice((1, 2, 3))
+            t = rng.randint(-2, 6)
+            e = rng.choice((None, None, t + 1, t + 2, t + 4))
+            try:
+                G.add_interaction(u, v, t, e) if e is not None else G.add_interaction(u, v, t)
+                hist.append([u, v, t, e])
+            except Exception:
+                pass
+        for name, (kinds, rkind) in QUERIES.items():
+            if not hasattr(type(G), name):
+                continue
+            for _ in range(2):
+                args = tuple((rng.choice((1, 2, 3, 9)) if k == 'node' else (rng.choice((None, rng.randint(-3, 8))) if k == 'int?' else rng.randint(-3, 8))) for k in kinds)
+                mism, outcome = run_concrete_query(eng, G, cls, name, args)
+                stats['calls'] += 1
+                if outcome.startswith('undecided') or outcome == 'skipped':
+                    stats['undecided'] += 1
+                if outcome.startswith('raise'):
+                    stats['raise'] += 1
+                if mism:
+                    stats['mismatches'].append({'class': cls, 'edge_removal': removal, 'history': list(hist), 'call': [name] + list(args), 'differences': mism[:4]})
+    return stats
